@@ -18,6 +18,9 @@ pub struct Dumper<'a> {
   pub out: String,
   /// identifier occurrences of local variables: (loc id, name, is_binder)
   pub occurrences: Vec<(usize, String, bool)>,
+  /// `E::LocalId` nodes whose expression location differs from the location of their identifier
+  /// (everything that navigates by position relies on the two being equal)
+  pub loc_mismatch: Vec<String>,
 }
 
 impl<'a> Dumper<'a> {
@@ -29,6 +32,7 @@ impl<'a> Dumper<'a> {
       loc_list: Vec::new(),
       out: String::new(),
       occurrences: Vec::new(),
+      loc_mismatch: Vec::new(),
     };
     d.loc(&Location::dummy()); // id 0 = dummy
     d
@@ -300,7 +304,15 @@ impl<'a> Dumper<'a> {
   pub fn expr(&mut self, e: &expr::E<()>) {
     match e {
       expr::E::Literal(_, _) | expr::E::ClassId(_, _, _) => self.leaf("seq", None, 0),
-      expr::E::LocalId(_, id) => {
+      expr::E::LocalId(common, id) => {
+        if common.loc != id.loc {
+          self.loc_mismatch.push(format!(
+            "{}:expr@{}/id@{}",
+            id.name.as_str(self.heap),
+            common.loc.pretty_print_without_file(),
+            id.loc.pretty_print_without_file()
+          ));
+        }
         let l = self.loc(&id.loc);
         self.occurrences.push((l, id.name.as_str(self.heap).to_string(), false));
         self.leaf("var", Some(id.name), l);
